@@ -20,8 +20,37 @@ SCOPE = "prefix"
 W_ENTRIES = ("flat_to_frames", "stream_frames", "flat_to_file_raw")
 
 
+OPT_MODES = ("plain", "explicit-flow", "derived", "mutated")
+
+
+def make_opts(api: str, cls: str, preset, frame_size: int, mode: str):
+    """SerializerOptions asking for `frame_size`, arrived at in different legal ways."""
+    if mode == "plain":
+        return DR.make_options(cls, preset, frame_size, True)
+    if mode == "explicit-flow":
+        # the caller builds the flow object itself; options.frame_size keeps its default
+        from pyjelly.serialize import flows  # noqa: PLC0415
+
+        opts = DR.make_options(cls, preset, 250, True)
+        fcls = flows.FlatTriplesFrameFlow if cls == "triple" else flows.FlatQuadsFrameFlow
+        opts.flow = fcls(frame_size=frame_size)
+        return opts
+    # the options object configured an earlier (bulk) stream before this one
+    import dataclasses  # noqa: PLC0415
+
+    opts0 = DR.make_options(cls, preset, 1000, True)
+    first = DR.g_stream(cls, opts0) if api == "generic" else DR.r_stream(cls, opts0)
+    first.enroll()
+    first.flow.to_stream_frame()
+    if mode == "derived":
+        return dataclasses.replace(opts0, frame_size=frame_size)
+    opts0.frame_size = frame_size
+    return opts0
+
+
 # --------------------------------------------------------------- write side
-def observe_write(api: str, cls: str, entry: str, seq, frame_size: int, preset):
+def observe_write(api: str, cls: str, entry: str, seq, frame_size: int, preset,
+                  mode: str = "plain"):
     """Run the pipeline; return (event log, frames as jwire dicts)."""
     log: list = []
     conv = T.st_to_generic if api == "generic" else T.st_to_rdflib
@@ -32,7 +61,7 @@ def observe_write(api: str, cls: str, entry: str, seq, frame_size: int, preset):
             log.append(("pull", i + 1))
             yield s
 
-    opts = DR.make_options(cls, preset, frame_size, True)
+    opts = make_opts(api, cls, preset, frame_size, mode)
     if api == "generic":
         from pyjelly.integrations.generic import serialize as ser  # noqa: PLC0415
 
@@ -186,7 +215,7 @@ def run_write_case(case: dict) -> list[tuple[str, str]]:
         g = seq[0][3]
         seq = [(*s[:3], g) for s in seq]
     log, frames = observe_write(case["api"], cls, case["entry"], seq, case["frame_size"],
-                                tuple(case["preset"]))
+                                tuple(case["preset"]), case.get("opts", "plain"))
     return judge_write(log, frames, len(seq), case["frame_size"])
 
 
@@ -201,9 +230,11 @@ def write_shard(job) -> dict:
         sym = AL.seq_at(idx, 6, L)
         if api == "rdflib" and not all(T.is_rdf11(alpha[i]) for i in sym):
             continue
-        for fs in (1, 2, 3, 4, 5, 6, 7, 8):
+        for fs, mode in [(f, m) for m in OPT_MODES for f in (1, 2, 3, 4, 5, 6, 7, 8)]:
+            if mode != "plain" and entry == "flat_to_file_raw":
+                continue
             case = {"side": "write", "api": api, "cls": cls, "entry": entry, "seq": list(sym),
-                    "frame_size": fs, "preset": list(preset)}
+                    "frame_size": fs, "preset": list(preset), "opts": mode}
             acc.evals += 1
             if len(sym) >= 2:
                 acc.nontrivial += 1
@@ -219,7 +250,7 @@ def write_shard(job) -> dict:
                     log = [e for e in log if e[0] == "pull"] + [("frame", 0, 0)] * len(
                         jwire.frame_offsets(data))
                 else:
-                    log, frames = observe_write(api, cls_, entry, seq, fs, preset)
+                    log, frames = observe_write(api, cls_, entry, seq, fs, preset, mode)
                     fails = judge_write(log, frames, len(seq), fs)
             except Exception as e:  # noqa: BLE001
                 fails = [("raised", f"{type(e).__name__}: {e}")]
@@ -317,7 +348,10 @@ def run(ctx) -> None:
         rule=(
             f"write: every sequence of length<={L} over the 'prefix' scope x frame_size 1..8 x "
             "{flat_stream_to_frames, stream_frames, flat_stream_to_file into an unbuffered raw "
-            "output that logs every write} x {Triple,Quad}Stream and GraphStream.graph() "
+            "output that logs every write} x {Triple,Quad}Stream and GraphStream.graph() x the "
+            "frame size given {through the options, through an explicit flow object, through an "
+            "options object derived (dataclasses.replace) or mutated after it configured a bulk "
+            "stream} "
             "x {generic, rdflib}; states = distinct (frame_size, pulls, rows handed out) "
             "observations, transitions = generator steps (pulls and yields) observed; read: every "
             "base stream x every frame boundary j x {raw, buffered (socket.makefile shape), "
